@@ -248,6 +248,62 @@ def collect_rules(ctx, prog):
     ctx.ob('C02.block_crc', 'collect() stores the CRC and the block length back into the encoder state on every exit',
            f.loc(rets[0].term), all(need.values()), str(need))
     writeback(ctx, prog, f, P, 'rle_state')
+    owed_count_rule(ctx, prog)
+
+
+def owed_count_rule(ctx, prog):
+    """collect(): a run of four or more equal bytes is written as four copies plus a count byte; while the count is
+    owed (rle_state >= 4 on entry, i.e. the run continues from the previous buffer) one slot of the block is
+    reserved for it.  The block may therefore be closed (rle_state = -1) before the count byte has been written
+    only on the branch `q > qMax`, which the reservation excludes -- never merely because the block is full."""
+    from pathsens import Explorer
+    f = prog.func('encode', 'collect')
+    P = Prov(prog, f)
+
+    def is_state(a):
+        return path_key(a[2]).endswith('.rle_state')
+
+    def full_fact(c):
+        cn = cmp_norm(c)
+        if not cn:
+            return None
+        pred, x, y = cn
+        x, y = strip_casts(x), strip_casts(y)
+        # write cursor (a loop-carried pointer) against the loop-invariant last slot
+        def inv(e):
+            return e[0] == 'addr' and e[1][0] == 'V'
+        if x[0] == 'phi' and inv(y) and pred in ('ugt', 'uge', 'ule', 'ult'):
+            return {'ugt': ('q>lim', True), 'ule': ('q>lim', False), 'uge': ('q>=lim', True), 'ult': ('q>=lim', False)}[pred]
+        return None
+    ex = Explorer(prog, f, {'state': is_state}, [(None, full_fact)], P)
+    events = []
+
+    def on_insn(ins, st):
+        if ins.op == 'store' and ins.extra.get('vty') == ('int', 8):
+            v = strip_casts(P.expr(ins.ops[0]))
+            # the count byte: (run length - 4), or the constant 255 for a run cut at its maximal length
+            if (v[0] == 'bin' and v[1] in ('sub', 'add') and strip_casts(v[3]) in (('const', 4), ('const', -4))) or \
+                    v == ('const', 255) or v == ('const', -1):
+                st['facts']['count_written'] = True
+
+    def on_store(ins, n, st):
+        if n == 'state' and st['cells'].get('state') == -1:
+            events.append((ins, dict(st['facts']), st['facts'].get('entry_state')))
+    init = []
+    for s0 in (4, 5, 100, 258):
+        init.append({'cells': {'state': s0}, 'facts': {'entry_state': s0}})
+    ex.explore(init, on_store=on_store, on_insn=on_insn)
+    ctx.floor('C02 collect(): block-close events explored with a run count owed', len(events), 1)
+    bad = []
+    for ins, fa, s0 in events:
+        if fa.get('count_written'):
+            continue
+        if fa.get('q>lim') is not True:
+            bad.append('%s: the block is closed with a run count still owed (entry state %s) although q > qMax does '
+                       'not hold on this path (facts %s)' % (f.loc(ins), s0, {k: v for k, v in fa.items() if k.startswith('q')}))
+    ctx.ob('C02.block_crc', 'collect(): with a run count owed from the previous buffer the block is never closed before '
+           'the count byte is written (except on the excluded branch q > qMax)', f.loc(), not bad,
+           '; '.join(sorted(set(bad))[:2]) or '%d close events' % len(events), evals=len(events))
 
 
 def writeback(ctx, prog, f, P, field):
